@@ -236,6 +236,21 @@ func scenarioDirect(c *harness.Ctx) {
 	}
 }
 
+type streamState struct {
+	got []byte
+	err error
+}
+
+//go:norace
+func (s *streamState) add(b []byte) {
+	for _, x := range b {
+		s.got = append(s.got, x)
+	}
+}
+
+//go:norace
+func (s *streamState) setErr(err error) { s.err = err }
+
 // scenarioStream: encrypter task -> link -> decrypter task; the link's
 // delivery schedule is the XORKeyStream call pattern of the StreamReader.
 func scenarioStream(c *harness.Ctx) {
@@ -257,9 +272,8 @@ func scenarioStream(c *harness.Ctx) {
 	c.Config["msg_len"] = len(msg)
 	c.Config["key_len"] = len(key)
 	c.Config["write_chunks"] = chunks
-	var got []byte
+	st := &streamState{}
 	var link *simnet.Link
-	var rerr error
 	out, w := c.World(func(w *kernel.World) {
 		link = simnet.Pipe(w, "cfb", cfg, simnet.LinkCfg{CutAt: -1, StallAt: -1})
 		w.Go("encrypter", func() {
@@ -281,10 +295,10 @@ func scenarioStream(c *harness.Ctx) {
 			for {
 				buf := make([]byte, bufSizes[tp.Choose(len(bufSizes))])
 				n, err := sr.Read(buf)
-				got = append(got, buf[:n]...)
+				st.add(buf[:n])
 				if err != nil {
 					if err != io.EOF {
-						rerr = err
+						st.setErr(err)
 					}
 					return
 				}
@@ -302,6 +316,7 @@ func scenarioStream(c *harness.Ctx) {
 		c.Fail("cfb8.liveness", "stream", fmt.Sprint(out), "world did not finish: %v %v", out, w.DeadlockAt)
 		return
 	}
+	got, rerr := st.got, st.err
 	if rerr != nil {
 		c.Fail("cfb8", "stream", "read-error", "decrypting reader failed: %v", rerr)
 		return
